@@ -13,10 +13,15 @@ an arbitrary capacity `m ≥ 1` and an arbitrary first copy identity `base`.
 * Fitnesses are compared through their weighted value tuples; `a.fit.wvalues < b.fit.wvalues` is
   the lexicographic order, which `C01.lt_iff_lex` / `C01.gt_iff_swap` prove to be what DEAP's
   `<` / `>` compute.
-* The hypotheses of the reading (DESIGN §6) are explicit: `SimHyp` (similarity is reflexive and
-  symmetric, ignores object identity, and similar shown individuals have equal fitness) for the
-  hall of fame, `PfHyp` (reflexive, symmetric, ignores identity, all fitnesses have the same number
-  of objectives) for the Pareto archive.  Transitivity of the similarity is never needed.
+* The hypotheses of the reading (DESIGN §6) are explicit and every clause carries only what it needs:
+  `SimSym` (similarity symmetric, ignores object identity) for `pairwise_dissimilar` / `pf_no_twins`;
+  `SimBase` (… and reflexive) for `all_kept_while_room`; `SimHyp` (… and similar shown individuals
+  have equal fitness) only for `best_of_seen`, which is false without it (`best_of_seen_needs_fit`);
+  `pf_antichain` needs only equal numbers of objectives; `pf_exact` needs `PfHyp` (`SimBase` + equal
+  numbers of objectives).  Transitivity of the similarity is never needed.
+* `copies_fresh` / `copies_frame` / `pf_copies` are true by construction of the model (`insert`
+  allocates a fresh id): they state what "deep copy" means for the model; that DEAP's `deepcopy`
+  call really yields such an object is checked by the harness oracle, not proved here.
   The structural theorems (`mirror`, `sorted_desc`, `size_le`, `worst_monotone`, `members_shown`,
   `copies_*`, `never_raises`) hold for *every* similarity operator.
 * `insert` runs CPython's binary search; `C08L.bisectRight_eq` proves it equal to the linear scan on
@@ -117,19 +122,19 @@ theorem copies_frame (hm : 1 ≤ m) (hr : run sim (empty m base) hist = some h)
 variable {sim}
 
 /-- Members are pairwise distinct under the similarity operator. -/
-theorem pairwise_dissimilar (hm : 1 ≤ m) (hh : SimHyp sim hist.flatten)
+theorem pairwise_dissimilar (hm : 1 ≤ m) (hh : SimSym sim)
     (hr : run sim (empty m base) hist = some h) :
     h.items.Pairwise (fun a b => sim a b = false) :=
-  (hof_sem hm hh hr).dissim
+  hof_dissim hm hh hr
 
 /-- While at most `m` distinct individuals exist (every list of pairwise dissimilar shown
 individuals has length ≤ `m`), every individual shown is kept (has a similar member). -/
-theorem all_kept_while_room (hm : 1 ≤ m) (hh : SimHyp sim hist.flatten)
+theorem all_kept_while_room (hm : 1 ≤ m) (hh : SimBase sim)
     (hr : run sim (empty m base) hist = some h)
     (hroom : ∀ l : List (Ind G α), (∀ y ∈ l, y ∈ hist.flatten) →
       l.Pairwise (fun a b => sim a b = false) → l.length ≤ m) :
     ∀ x ∈ hist.flatten, ∃ it ∈ h.items, sim x it = true :=
-  (hof_sem hm hh hr).kept hroom
+  (hof_semk hm hh hr).kept hroom
 
 /-- Best of everything seen: every individual ever shown is either kept (has a similar member), or
 the archive is full and the individual is not strictly better than the worst (= last) member. -/
@@ -138,7 +143,7 @@ theorem best_of_seen (hm : 1 ≤ m) (hh : SimHyp sim hist.flatten)
     ∀ x ∈ hist.flatten, (∃ it ∈ h.items, sim x it = true) ∨
       (h.items.length = m ∧ ∀ w, h.items.getLast? = some w → ¬ (w.fit.wvalues < x.fit.wvalues)) := by
   intro x hx
-  rcases (hof_sem hm hh hr).best x hx with hrep | ⟨hl, hw⟩
+  rcases hof_best hm hh hr x hx with hrep | ⟨hl, hw⟩
   · exact Or.inl hrep
   · exact Or.inr ⟨hl, fun w hw' => not_lt.2 (hw w hw')⟩
 
@@ -149,7 +154,7 @@ theorem best_of_seen_gt (hm : 1 ≤ m) (hh : SimHyp sim hist.flatten)
     ∀ x ∈ hist.flatten, (∀ it ∈ h.items, sim x it = false) →
       h.items.length = m ∧ ∀ w, h.items.getLast? = some w → Fitness.gt x.fit w.fit = false := by
   intro x hx hno
-  rcases (hof_sem hm hh hr).best x hx with ⟨it, hit, hs⟩ | ⟨hl, hw⟩
+  rcases hof_best hm hh hr x hx with ⟨it, hit, hs⟩ | ⟨hl, hw⟩
   · rw [hno it hit] at hs; exact absurd hs (by simp)
   · exact ⟨hl, fun w hw' => (gt_false_iff _ _).2 (hw w hw')⟩
 
@@ -198,11 +203,18 @@ theorem dom_meaning (a b : Fitness.Fit α) :
 
 variable {sim}
 
-/-- Members are mutually non-dominated. -/
-theorem pf_antichain {n : Nat} (hh : PfHyp sim n hist.flatten)
+/-- Members are mutually non-dominated — for every similarity operator, as soon as all fitnesses
+shown have the same number of objectives. -/
+theorem pf_antichain {n : Nat} (hlen : ∀ x ∈ hist.flatten, x.fit.wvalues.length = n)
     (hr : pfRun sim (empty m base) hist = some h) :
     ∀ a ∈ h.items, ∀ b ∈ h.items, dom a.fit b.fit = false :=
-  (pf_sem hh hr).anti
+  pf_anti hlen hr
+
+/-- No two members have equal fitness and are similar (symmetric identity-blind similarity suffices). -/
+theorem pf_no_twins {n : Nat} (hlen : ∀ x ∈ hist.flatten, x.fit.wvalues.length = n) (hh : SimSym sim)
+    (hr : pfRun sim (empty m base) hist = some h) :
+    h.items.Pairwise (fun a b => ¬ (a.fit = b.fit ∧ sim a b = true)) :=
+  pf_notwin hlen hh hr
 
 /-- The archive holds exactly one copy of every distinct individual ever shown whose fitness is not
 dominated by any fitness ever shown:
@@ -217,12 +229,13 @@ theorem pf_exact {n : Nat} (hh : PfHyp sim n hist.flatten)
         ∃ it ∈ h.items, it.fit = x.fit ∧ sim x it = true) ∧
     h.items.Pairwise (fun a b => ¬ (a.fit = b.fit ∧ sim a b = true)) := by
   have hs := pf_str sim hr
-  have hsem := pf_sem hh hr
+  have hanti := pf_anti hh.len hr
+  have hcover := pf_cover hh hr
   have hlen_it : ∀ it ∈ h.items, it.fit.wvalues.length = n := by
     intro it hit
     obtain ⟨x, hx, sx⟩ := hs.origin it hit
     rw [sx.2]; exact hh.len x hx
-  refine ⟨?_, ?_, hsem.notwin⟩
+  refine ⟨?_, ?_, pf_notwin hh.len hh.toSimSym hr⟩
   · intro it hit
     obtain ⟨x, hx, sx⟩ := hs.origin it hit
     refine ⟨x, hx, sx, ?_⟩
@@ -231,12 +244,12 @@ theorem pf_exact {n : Nat} (hh : PfHyp sim n hist.flatten)
     | false => rfl
     | true =>
       exfalso
-      rcases hsem.cover y hy with ⟨z, hz, hd⟩ | ⟨z, hz, ht⟩
+      rcases hcover y hy with ⟨z, hz, hd⟩ | ⟨z, hz, ht⟩
       · have := dom_trans (hlen_it z hz) (hh.len y hy) (hh.len x hx) hd hq
-        rw [← sx.2, hsem.anti z hz it hit] at this; exact absurd this (by simp)
-      · rw [ht.1, ← sx.2, hsem.anti z hz it hit] at hq; exact absurd hq (by simp)
+        rw [← sx.2, hanti z hz it hit] at this; exact absurd this (by simp)
+      · rw [ht.1, ← sx.2, hanti z hz it hit] at hq; exact absurd hq (by simp)
   · intro x hx hnd
-    rcases hsem.cover x hx with ⟨it, hit, hd⟩ | ⟨it, hit, ht⟩
+    rcases hcover x hx with ⟨it, hit, hd⟩ | ⟨it, hit, ht⟩
     · obtain ⟨x', hx', sx'⟩ := hs.origin it hit
       rw [sx'.2, hnd x' hx'] at hd; exact absurd hd (by simp)
     · exact ⟨it, hit, ht.1.symm, ht.2⟩
@@ -248,26 +261,26 @@ section Examples
 /-- similarity = equal genomes (the default `operator.eq` on list individuals) -/
 def genomeEq : Ind Nat Int → Ind Nat Int → Bool := fun a b => decide (a.genome = b.genome)
 
-/-- Genome equality satisfies the reading's hypotheses on every universe in which the fitness is a
-function of the genome. -/
-theorem simHyp_genomeEq (U : List (Ind Nat Int))
-    (hU : ∀ x ∈ U, ∀ y ∈ U, x.genome = y.genome → x.fit = y.fit) : SimHyp genomeEq U where
+/-- Genome equality is reflexive, symmetric and blind to object identity. -/
+theorem simBase_genomeEq : SimBase genomeEq where
   refl := by simp [genomeEq]
   symm := by simp only [genomeEq, decide_eq_true_eq]; exact fun _ _ e => e.symm
   same := by
     intro x x' y y' h1 h2
     simp only [genomeEq, h1.1, h2.1]
+
+/-- Genome equality satisfies the reading's hypotheses on every universe in which the fitness is a
+function of the genome. -/
+theorem simHyp_genomeEq (U : List (Ind Nat Int))
+    (hU : ∀ x ∈ U, ∀ y ∈ U, x.genome = y.genome → x.fit = y.fit) : SimHyp genomeEq U where
+  toSimBase := simBase_genomeEq
   fit := by
     intro x hx y hy hs
     exact hU x hx y hy (by simpa [genomeEq] using hs)
 
 theorem pfHyp_genomeEq (n : Nat) (U : List (Ind Nat Int))
     (hU : ∀ x ∈ U, x.fit.wvalues.length = n) : PfHyp genomeEq n U where
-  refl := by simp [genomeEq]
-  symm := by simp only [genomeEq, decide_eq_true_eq]; exact fun _ _ e => e.symm
-  same := by
-    intro x x' y y' h1 h2
-    simp only [genomeEq, h1.1, h2.1]
+  toSimBase := simBase_genomeEq
   len := hU
 
 /-- objects 0,1,2; object 0 is modified in place (genome 7 → 9) and shown again; two objectives -/
@@ -294,8 +307,42 @@ example : ∃ h, run genomeEq (empty 2 100) exHist = some h ∧
       (h.items.length = 2 ∧ ∀ w, h.items.getLast? = some w → ¬ (w.fit.wvalues < x.fit.wvalues))) := by
   obtain ⟨h, hr⟩ := never_raises genomeEq (by decide : 1 ≤ 2) 100 exHist
   have hh : SimHyp genomeEq exHist.flatten := simHyp_genomeEq _ (by decide)
-  exact ⟨h, hr, mirror _ (by decide) hr, size_le _ (by decide) hr, pairwise_dissimilar (by decide) hh hr,
+  exact ⟨h, hr, mirror _ (by decide) hr, size_le _ (by decide) hr, pairwise_dissimilar (by decide) hh.toSimSym hr,
     best_of_seen (by decide) hh hr⟩
+
+/-- `best_of_seen` needs "similar ⇒ equal fitness": object 0 (genome 1) is re-evaluated in place from
+fitness 1 to 5 and shown again; it is rejected as similar to its old copy, the old copy is later
+evicted by genome 3 (fitness 2), and the shown (genome 1, fitness 5) is neither represented nor
+≤ the worst member.  This is DEAP's documented design ("a single copy of each individual is kept",
+individuals are identified by `similar`), so the reading of DESIGN §6 keeps the hypothesis. -/
+theorem best_of_seen_needs_fit :
+    ∃ (hist : List (List (Ind Nat Int))) (h : HoF Nat Int) (x : Ind Nat Int),
+      SimBase genomeEq ∧ run genomeEq (empty 2 100) hist = some h ∧ x ∈ hist.flatten ∧
+      (∀ it ∈ h.items, genomeEq x it = false) ∧
+      ∃ w, h.items.getLast? = some w ∧ w.fit.wvalues < x.fit.wvalues := by
+  obtain ⟨h, hr⟩ := never_raises genomeEq (by decide : 1 ≤ 2) 100
+    [[⟨0, 1, ⟨[1]⟩⟩, ⟨1, 2, ⟨[3]⟩⟩], [⟨0, 1, ⟨[5]⟩⟩], [⟨2, 3, ⟨[2]⟩⟩]]
+  have hv : view (run genomeEq (empty 2 100)
+      [[⟨0, 1, ⟨[1]⟩⟩, ⟨1, 2, ⟨[3]⟩⟩], [⟨0, 1, ⟨[5]⟩⟩], [⟨2, 3, ⟨[2]⟩⟩]]) =
+      some ([(101, 2, [3]), (102, 3, [2])], [[2], [3]]) := by decide
+  rw [hr] at hv
+  simp only [view, Option.map_some, Option.some.injEq, Prod.mk.injEq] at hv
+  obtain ⟨hi, _⟩ := hv
+  have hlast : (h.items.getLast?).map (fun i => (i.oid, i.genome, i.fit.wvalues)) = some (102, 3, [2]) := by
+    rw [← List.getLast?_map, hi]; rfl
+  cases hw : h.items.getLast? with
+  | none => rw [hw] at hlast; simp at hlast
+  | some w =>
+    rw [hw] at hlast
+    simp only [Option.map_some, Option.some.injEq, Prod.mk.injEq] at hlast
+    refine ⟨_, h, ⟨0, 1, ⟨[5]⟩⟩, simBase_genomeEq, hr, by simp, ?_, w, hw, ?_⟩
+    · intro it hit
+      have : (it.oid, it.genome, it.fit.wvalues) ∈ h.items.map (fun i => (i.oid, i.genome, i.fit.wvalues)) :=
+        List.mem_map.2 ⟨it, hit, rfl⟩
+      rw [hi] at this
+      simp only [List.mem_cons, Prod.mk.injEq, List.not_mem_nil, or_false] at this
+      rcases this with ⟨_, hg, _⟩ | ⟨_, hg, _⟩ <;> simp [genomeEq, hg]
+    · rw [hlast.2.2]; decide
 
 /-- the hypotheses of `worst_monotone` hold on the concrete history: after the first batch the
 archive of capacity 2 is full (worst member: genome 7, fitness (1,-2)), and the rest of the history follows -/
@@ -337,7 +384,7 @@ example : ∃ h, pfRun genomeEq (empty 0 100) exHist = some h ∧
     h.items.Pairwise (fun a b => ¬ (a.fit = b.fit ∧ genomeEq a b = true)) := by
   obtain ⟨h, hr⟩ := pf_never_raises genomeEq 0 100 exHist
   have hh : PfHyp genomeEq 2 exHist.flatten := pfHyp_genomeEq 2 _ (by decide)
-  exact ⟨h, hr, pf_antichain hh hr, (pf_exact hh hr).2.2⟩
+  exact ⟨h, hr, pf_antichain hh.len hr, pf_no_twins hh.len hh.toSimSym hr⟩
 
 end Examples
 
